@@ -115,6 +115,7 @@ func cmdCheck(args []string) int {
 	slow := fs.Int("slow", 2000, "report obligations slower than this many ms (verbose)")
 	closure := fs.Bool("closure", os.Getenv("GOVC_NOCLOSURE") == "", "also verify every contracted callee the property's units depend on (transitively)")
 	overlayFile := fs.String("overlay", "", "json file {path: replacement-path} applied as source overlay")
+	pkgFilter := fs.String("pkg", "", "after computing the property's units and their dependency closure, solve only the units whose package path contains one of these comma-separated substrings (development / seed trials: a code change can only affect the units of its own package and the units that inline it)")
 	fs.Parse(args)
 	t0 := time.Now()
 	seed := 0
@@ -274,6 +275,18 @@ func cmdCheck(args []string) int {
 				units = append(units, nu)
 			}
 		}
+	}
+	if *pkgFilter != "" {
+		var kept []*UnitResult
+		for _, u := range units {
+			for _, sub := range strings.Split(*pkgFilter, ",") {
+				if sub != "" && strings.Contains(u.Pkg, sub) {
+					kept = append(kept, u)
+					break
+				}
+			}
+		}
+		units = kept
 	}
 	tGen := time.Since(t0) - tLoad
 	to := 30
